@@ -168,3 +168,75 @@ func c19FuncDocs(t *testing.T, s *vh.Session) {
 		}
 	})
 }
+
+// Values are "the text after the first space": observable where a value is copied verbatim
+// into the output (output:raw). The raw text is a constant with a raw string literal whose lines
+// start with drawn white space; formatting never touches the inside of a raw string, so the
+// emitted file must hold every line with exactly the white space that follows the separating space.
+type rawValueCase struct {
+	Indents []string `json:"indents"` // leading white space of each raw line (after the separating space)
+}
+
+func (c rawValueCase) files() (map[string]string, []string) {
+	var doc strings.Builder
+	var want []string
+	doc.WriteString("// goverter:converter\n// goverter:output:raw const RawText = `\n")
+	for i, ind := range c.Indents {
+		line := fmt.Sprintf("%sraw line %d", ind, i)
+		want = append(want, line)
+		doc.WriteString("// goverter:output:raw " + line + "\n")
+	}
+	doc.WriteString("// goverter:output:raw `\n")
+	src := "package p\n\ntype In struct{ A int }\ntype Out struct{ A int }\n\n" + doc.String() + "type V interface {\n\tM(source In) Out\n}\n"
+	return map[string]string{"go.mod": "module example.com/c19v\n\ngo 1.22\n", "p/conv.go": src}, want
+}
+
+func c19EvalRawValues(s *vh.Session, c rawValueCase) string {
+	dir := s.Scratch()
+	files, want := c.files()
+	if err := vh.WriteTree(dir, files); err != nil {
+		return "INFRA: " + err.Error()
+	}
+	l, err := vh.Load(vh.GenOpts{Dir: dir, Patterns: []string{"./p"}})
+	if err != nil {
+		return "INFRA: raw-value program does not load: " + vh.FirstLines(err.Error(), 6)
+	}
+	res := l.PerConverter(nil, nil)
+	s.Eval(1)
+	if len(res) != 1 || res[0].Panic != "" {
+		return "INFRA: raw-value program: unexpected result"
+	}
+	if res[0].Err != nil {
+		return "raw output lines of a raw string constant made generation fail: " + vh.FirstLines(res[0].Err.Error(), 6)
+	}
+	var text string
+	for _, b := range res[0].Files {
+		text += string(b)
+	}
+	for _, w := range want {
+		if !strings.Contains(text, "\n"+w+"\n") {
+			return fmt.Sprintf("output:raw value %q (the text after the first space) is not in the emitted file as written", w)
+		}
+	}
+	return ""
+}
+
+func c19RawValues(t *testing.T, s *vh.Session) {
+	rapid.Check(t, func(rt *rapid.T) {
+		n := rapid.IntRange(1, 4).Draw(rt, "nlines")
+		var c rawValueCase
+		for i := 0; i < n; i++ {
+			c.Indents = append(c.Indents, rapid.SampledFrom([]string{"", " ", "    ", "\t", "\t\t", " \t ", "        "}).Draw(rt, "indent"))
+		}
+		msg := c19EvalRawValues(s, c)
+		if strings.HasPrefix(msg, "INFRA") {
+			s.Infra(msg)
+			rt.Fatalf("%s", msg)
+		}
+		s.Label("raw-values")
+		s.Nontrivial(fmt.Sprintf("rawvalues:%q", c.Indents), nil)
+		if msg != "" {
+			s.FailRapid(rt, "rawvalues", c, "%s", msg)
+		}
+	})
+}
